@@ -172,7 +172,7 @@ def ob_refuse(ob):
         ob.prove([], None, False, f"{name}/refuses", {}, replay_fn(PROPERTY, f"{name}.refuse", body, key=f"{name}/refuse"))
 
 
-def obligations(tier, seed):
+def _obligations(tier, seed):
     obs = []
     for name in MONO:
         obs.append((f"{name}/R/inverse", ob_inverse(name)))
@@ -180,3 +180,8 @@ def obligations(tier, seed):
         obs.append((f"{name}/R/arrays", ob_arrays(name, tier)))
     obs.append(("non-monotonic/refuse", ob_refuse))
     return obs
+
+
+def obligations(tier, seed):
+    from . import conform
+    return _obligations(tier, seed) + conform.obligations(PROPERTY, tier)
